@@ -66,6 +66,7 @@ func freshVoprf(suite oprf.Suite, k *oprf.PrivateKey) *oprf.PrivateKey {
 
 type concOp struct {
 	run  func() []byte       // the concurrent call on the shared object; returns its raw result
+	noise func()             // optional ("long" kinds): a quick refused call on the same shared object, made in bursts between the runs
 	post func([]byte) []byte // optional: executed after all goroutines have finished (sequentially): derives the
 	// deterministic value that is compared with the sequential reference (e.g. the finalized token)
 }
@@ -84,11 +85,13 @@ func buildConc(seed int64, kind string, prog [][]string) [][]concOp {
 	concPrelude = nil
 	fail := func(err error) []byte { return []byte("error: " + err.Error()) }
 	switch kind {
-	case "t1issuer", "t5issuer", "t1odd", "t1warm":
+	case "t1issuer", "t5issuer", "t1odd", "t1warm", "t1long":
+		// "t1long": the same programs in LONG use - every call is made 40 times, with bursts of 300 quickly refused calls
+		// between them (thousands of calls on the one issuer, those of a later hundred overtaking those of an earlier one)
 		// "t1odd": the same programs with requests whose element comes in ANOTHER form (uncompressed SEC1): the issuer
 		// refuses them - or, should it ever accept them, handles them like the others - without sharing anything
 		// "t1warm": the caller has already used the key object (published its public key) before building the issuer
-		t1 := kind == "t1issuer" || kind == "t1odd" || kind == "t1warm"
+		t1 := kind == "t1issuer" || kind == "t1odd" || kind == "t1warm" || kind == "t1long"
 		var key *oprf.PrivateKey
 		if t1 {
 			key = freshVoprf(oprf.SuiteP384, p384Key(seed, "k1"))
@@ -145,6 +148,10 @@ func buildConc(seed int64, kind string, prog [][]string) [][]concOp {
 							panic(err)
 						}
 						req1 := st.Request()
+						if kind == "t1long" {
+							badReq := &type1.BasicPrivateTokenRequest{TokenKeyID: req1.TokenKeyID, BlindedReq: append([]byte{0x02}, bytes.Repeat([]byte{0xff}, 48)...)}
+							op.noise = func() { iss1.Evaluate(badReq) }
+						}
 						if kind == "t1odd" {
 							if x, y := elliptic.UnmarshalCompressed(elliptic.P384(), req1.BlindedReq); x != nil {
 								req1 = &type1.BasicPrivateTokenRequest{TokenKeyID: req1.TokenKeyID, BlindedReq: elliptic.Marshal(elliptic.P384(), x, y)}
@@ -395,7 +402,9 @@ func buildConc(seed int64, kind string, prog [][]string) [][]concOp {
 				}})
 			}
 		}
-	case "eckey", "ecfirst":
+	case "eckey", "ecfirst", "eczero":
+		// "eczero": the same programs with a blind key whose scalar begins with a zero byte (one key in 256), every call
+		// made 40 times
 		curve := elliptic.P256()
 		// key objects are assembled by hand (standard library arithmetic): in the "first" kinds nothing of the fork
 		// has run in this process before the concurrent phase
@@ -405,11 +414,16 @@ func buildConc(seed int64, kind string, prog [][]string) [][]concOp {
 			return &ecdsa.PrivateKey{PublicKey: ecdsa.PublicKey{Curve: curve, X: x, Y: y}, D: d}
 		}
 		sk, bk, sk2 := mk("conc-sk"), mk("conc-bk"), mk("conc-sk2")
+		for n := 0; kind == "eczero" && bk.D.BitLen() > 248; n++ {
+			bk = mk(fmt.Sprintf("conc-bk-%d", n))
+		}
 		// the shared signing key holds an UNREDUCED scalar (d + N, as CreateKey from raw bytes can produce): the same
 		// key, and nothing may "tidy" it in place while other goroutines use it
 		sk.D = new(big.Int).Add(sk.D, curve.Params().N)
 		// ... and so does the shared BLIND key (its bytes, not its residue, are what the blinding factor is derived from)
-		bk.D = new(big.Int).Add(bk.D, curve.Params().N)
+		if kind != "eczero" {
+			bk.D = new(big.Int).Add(bk.D, curve.Params().N)
+		}
 		concPrelude = append(concPrelude, func() {
 			ecdsa.Verify(&sk.PublicKey, []byte("digest"), big.NewInt(1), big.NewInt(1))
 			ecdsa.VerifyASN1(&sk.PublicKey, []byte("digest"), []byte{0x30, 0x03, 0x02, 0x01})
@@ -531,6 +545,10 @@ func execConcurrency(c *ctx, in ev) []ev {
 		reps = 1
 	}
 	first := strings.HasSuffix(kind, "first")
+	long := 1
+	if kind == "t1long" || kind == "eczero" {
+		long = 40
+	}
 	if first && os.Getenv("VERIF_CONC_CHILD") == "" {
 		return concChild(c, in)
 	}
@@ -590,6 +608,14 @@ func execConcurrency(c *ctx, in ev) []ev {
 					<-start
 					for i, op := range ops[g] {
 						got[g][i] = op.run()
+						for k := 1; k < long; k++ { // long use: the call again and again, quick refusals in between
+							for x := 0; x < 300 && op.noise != nil; x++ {
+								op.noise()
+							}
+							if v := op.run(); op.post == nil && !bytes.Equal(v, got[g][i]) {
+								got[g][i] = v // (a deterministic call that answers differently later on: the later answer is compared)
+							}
+						}
 					}
 				}()
 			}
